@@ -1,6 +1,5 @@
 """C01 - a call never starts before everything it depends on has finished successfully (premises A1-A6)."""
 from . import engine as E
-from .common import rule_pruning_preserves_paths
 
 
 def check(ctx):
